@@ -12,7 +12,8 @@ from scales.constants import MessageProperties, SinkProperties
 from scales.core import ScalesUriParser
 from scales.kafka.protocol import BrokerMetadata, MetadataResponse, PartitionMetadata, ProduceResponse
 from scales.kafka.sink import KafkaEndpoint, KafkaSerializerSink, KafkaTransportSink
-from scales.message import MethodCallMessage
+from scales.message import Deadline, MethodCallMessage, MethodReturnMessage, TimeoutError
+from scales.observable import Observable
 from scales.sink import ClientMessageSink, ClientMessageSinkStack
 
 ID = 'C15'
@@ -68,6 +69,11 @@ def strategy(tier):
       'order': st.permutations([0, 1, 2, 3, 4]),
       'metadata': st.one_of(st.none(), meta),
       # how the reply byte stream is split across socket reads
+      # the transport's client id: the stock one, or what a subclass / deployment sets (other lengths, empty, non-ASCII bytes)
+      # requests (by index) whose deadline passes after they were sent, and how many of the last requests are only issued then
+      'timeouts': st.one_of(st.just([]), st.just([]), st.lists(st.integers(0, 3), min_size=1, max_size=2, unique=True)),
+      'after_timeouts': st.integers(1, 2),
+      'client_id': st.sampled_from([None, None, '', '78', '7363616c657321', 'c3a9e282ac', '61' * 40]),
       'chunks': st.one_of(st.none(), st.just('bytes'), st.lists(st.integers(1, 9), min_size=1, max_size=5),
                           st.lists(st.sampled_from([1, 3, 4, 5, 64, 1000]), min_size=1, max_size=4)),
   })
@@ -102,6 +108,12 @@ def execute(plan):
         nt_reads['i'] += 1
         return 1 if ch == 'bytes' else ch[nt_reads['i'] % len(ch)]
       net.chunker = chunker
+    want_client_id = b'scales'
+    if plan.get('client_id') is not None:
+      want_client_id = bytes.fromhex(plan['client_id'])
+      stock = KafkaTransportSink.CLIENT_ID
+      KafkaTransportSink.CLIENT_ID = want_client_id
+      World.current.cleanups.append(lambda: setattr(KafkaTransportSink, 'CLIENT_ID', stock))
     peer = KafkaPeer()
     Server(net, ('127.0.0.1', PORT), peer)
     ser = KafkaSerializerSink.Builder()
@@ -116,7 +128,24 @@ def execute(plan):
     kep = KafkaEndpoint('127.0.0.1', PORT, plan['partition'])
     results = []
     reqs = plan['requests']
+    timed_out = sorted(set(t for t in (plan.get('timeouts') or []) if t < len(reqs)))
+    n_late = min(plan.get('after_timeouts', 0), max(0, len(reqs) - 1)) if timed_out else 0
+    timed_out = [t for t in timed_out if t < len(reqs) - n_late]
+    events = {}
+    stacks = {}
+    fired = set()
     for i, rq in enumerate(reqs):
+      if n_late and i == len(reqs) - n_late:
+        # the deadlines of some requests that are already on the wire pass (what ClientTimeoutSink does), and only
+        # then are the remaining requests issued: a correlation id in flight must not be handed out again
+        advance(0.01)
+        for t in timed_out:
+          if not results[t]:
+            fired.add(t)
+            events[t].Set(True)
+            stacks[t].AsyncProcessResponseMessage(MethodReturnMessage(error=TimeoutError()))
+        advance(0.005)
+        nt.add('requests issued after in-flight ones timed out')
       payloads = [_payload(p) for p in rq['payloads']]
       if rq['kw'] == 'pos':
         msg = MethodCallMessage(None, 'Put', (topic, payloads, rq['acks']), {})
@@ -129,6 +158,10 @@ def execute(plan):
       results.append(got)
       st_ = ClientMessageSinkStack()
       st_.Push(Terminal(), got)
+      if i in timed_out:
+        msg.properties[Deadline.KEY] = loop.now() + 5.0
+        events[i] = msg.properties[Deadline.EVENT_KEY] = Observable()
+        stacks[i] = st_
       try:
         sink.AsyncProcessRequest(st_, msg, None, {})
       except Exception as e:
@@ -150,7 +183,7 @@ def execute(plan):
       payloads = [_payload(p) for p in rq['payloads']]
       if d['api_key'] != 0 or d['api_version'] != 0:
         raise Violation(ID, 'header-fields', 'request %d: api key %d version %d' % (i, d['api_key'], d['api_version']))
-      if d['client_id'] != b'scales':
+      if d['client_id'] != want_client_id:
         raise Violation(ID, 'header-fields', 'request %d: client id %r' % (i, d['client_id']))
       if d['correlation_id'] in corr:
         raise Violation(ID, 'correlation-reused', 'request %d reuses correlation id %d of an unanswered request' % (i, d['correlation_id']))
@@ -190,14 +223,18 @@ def execute(plan):
           want.append(ProduceResponse(name, pid, err, off))
       for j, g in enumerate(results):
         done_before = j in order[:order.index(i)]
-        if j == i:
+        if j == i and i in fired:
+          # the late reply to a request that has timed out changes nothing for its caller
+          if len(g) != 1 or not isinstance(g[0].error, TimeoutError):
+            raise Violation(ID, 'response-misrouted', 'request %d had timed out; after its late reply its caller holds %r' % (i, [(m.error, m.return_value) for m in g]))
+        elif j == i:
           if len(g) != 1:
             raise Violation(ID, 'response-not-delivered', 'response for request %d (correlation id %d) was delivered %d times' % (i, rec['req']['correlation_id'], len(g)))
           if g[0].error is not None:
             raise Violation(ID, 'response-undecodable', 'response for request %d failed to decode: %r' % (i, g[0].error))
           if list(g[0].return_value) != want:
             raise Violation(ID, 'response-mismatch', 'request %d decoded %r, broker encoded %r' % (i, g[0].return_value, want))
-        elif not done_before and g:
+        elif not done_before and g and not (j in fired and len(g) == 1 and isinstance(g[0].error, TimeoutError)):
           raise Violation(ID, 'response-misrouted', 'request %d completed when the response for request %d was sent' % (j, i))
     # metadata
     meta = plan['metadata']
@@ -216,7 +253,7 @@ def execute(plan):
       if len(peer.requests) != n0 + 1 or 'error' in peer.requests[-1]:
         raise Violation(ID, 'request-malformed', 'metadata request: %r' % (peer.requests[n0:],))
       rec = peer.requests[-1]
-      if rec['req']['api_key'] != 3 or rec['req']['api_version'] != 0 or rec['req']['client_id'] != b'scales' or rec['req']['topics'] != []:
+      if rec['req']['api_key'] != 3 or rec['req']['api_version'] != 0 or rec['req']['client_id'] != want_client_id or rec['req']['topics'] != []:
         raise Violation(ID, 'header-fields', 'metadata request %r' % (rec['req'],))
       brokers = [(n, bytes.fromhex(h), p) for n, h, p in meta['brokers']]
       topics = [(e, bytes.fromhex(nm), [tuple(p) for p in parts]) for e, nm, parts in meta['topics']]
